@@ -23,7 +23,7 @@ from . import common
 
 SPEC = {
     "lean": ["SnowModel.Props.C11", "SnowModel.Props.C11Bridge"],
-    "pins": ["BoundedFuncs"],
+    "pins": ["BoundedFuncs", "TemplateUtils"],
     "harness": "harness.c11",
     "technique": "Lean 4 theorems over an executable model of random_number / random_choice / date_between / "
     "datetime_between with explicit draws (lattice, support, exact selection intervals, bounds, attainability of "
@@ -207,7 +207,8 @@ def classify_error(e):
         return "zero_step"
     if "Total of weights must be greater than zero" in msgs:
         return "total_not_positive"
-    if "unsupported operand type" in msgs or any(isinstance(x, TypeError) for x in _chain(e)):
+    if ("unsupported operand type" in msgs or "can only concatenate str" in msgs
+            or "cannot be interpreted as an integer" in msgs or any(isinstance(x, TypeError) for x in _chain(e))):
         return "type_error"
     if "End date is before start date" in msgs:
         return "order_error"
@@ -248,6 +249,63 @@ def _as_int(v):
 # ------------------------------------------------------------------ random_number
 
 
+_POWERS = [(2, 31), (2, 53), (2, 63), (2, 64), (10, 20)]
+
+
+def _fexpr(v, form, big=None):
+    """Text of a formula expression denoting the integer v (never starting with `-`: `${{-5}}` is
+    Jinja's whitespace-control `{{-` followed by 5)."""
+    if form == "var" and big is not None:
+        d = v - big
+        return f"big + {d}" if d >= 0 else f"big - {-d}"
+    if form == "pow":
+        b, e = min(_POWERS, key=lambda p: abs(abs(v) - p[0] ** p[1]))
+        p = b ** e
+        if v >= 0:
+            d = v - p
+            return f"{b}**{e} + {d}" if d >= 0 else f"{b}**{e} - {-d}"
+        d = -v - p  # v = -(p + d)
+        return f"0 - {b}**{e} - {d}" if d >= 0 else f"0 - {b}**{e} + {-d}"
+    return str(v) if v >= 0 else f"0 - {-v}"
+
+
+def _rn_recipe(case, n):
+    """Recipe text for the recipe-level ways of writing random_number:
+    via 'recipe'  : YAML function field, literal YAML ints
+    via 'fargs'   : YAML function field, every argument a `${{formula}}` (rendered before the call)
+    via 'formula' : inline `${{random_number(min=…, max=…, step=…)}}` (the result is re-rendered)"""
+    mn, mx, st = case["min"], case["max"], case["step"]
+    via, form, big = case["via"], case.get("argform", "lit"), case.get("big")
+    omit = st == 1 and case.get("omit_step")
+    head = "- snowfakery_version: 3\n" if case.get("v3") else ""
+    if form == "var" and big is not None:
+        bigtext = str(big) if case.get("big_literal") else "${{" + _fexpr(big, "pow") + "}}"
+        head += f"- var: big\n  value: {bigtext}\n"
+    if via == "formula":
+        fx = (lambda v: _fexpr(v, form, big)) if form != "lit" else (lambda v: str(v))
+        args = f"min={fx(mn)}, max={fx(mx)}" + ("" if omit else f", step={fx(st)}")
+        lines = [f"x: ${{{{random_number({args})}}}}"]
+    elif via == "fargs":
+        fx = lambda v: "${{" + _fexpr(v, form, big) + "}}"  # noqa
+        lines = ["x:", "  random_number:", f"    min: {fx(mn)}", f"    max: {fx(mx)}"]
+        if not omit:
+            lines.append(f"    step: {fx(st)}")
+    else:
+        lines = ["x:", "  random_number:", f"    min: {mn}", f"    max: {mx}"]
+        if not omit:
+            lines.append(f"    step: {st}")
+    body = "\n".join("    " + ln for ln in lines)
+    return f"{head}- object: A\n  count: {n}\n  fields:\n{body}\n"
+
+
+def _value_type(v):
+    if isinstance(v, int) and not isinstance(v, bool):
+        return "int"
+    if isinstance(v, dict) and v.get("t") in ("int", "str"):
+        return v["t"]
+    return "other"
+
+
 def real_rn(case, rng):
     """-> {'outs': [['value', x] | ['error', kind]], 'draws': [(n, k)]}"""
     mn, mx, st = case["min"], case["max"], case["step"]
@@ -267,24 +325,20 @@ def real_rn(case, rng):
                 except Exception as e:  # noqa
                     outs.append(["error", classify_error(e)])
         else:
-            if via == "formula":
-                args = f"min={mn}, max={mx}" + ("" if (st == 1 and case.get("omit_step")) else f", step={st}")
-                lines = [f"x: ${{{{random_number({args})}}}}"]
-            else:
-                lines = ["x:", "  random_number:", f"    min: {mn}", f"    max: {mx}"]
-                if not (st == 1 and case.get("omit_step")):
-                    lines.append(f"    step: {st}")
-            res = common.run_recipe(_recipe(lines, n, v3=case.get("v3", False)))
+            res = common.run_recipe(_rn_recipe(case, n))
+            types = []
             if res.outcome == "ok":
                 outs = []
-                for v in _field_values(res):
+                for v in _field_values(res):  # the value THE OUTPUT STREAM RECEIVES
                     iv = _as_int(v)
                     outs.append(["value", iv] if iv is not None else ["value?", repr(v)])
+                    types.append(_value_type(v))
             elif res.outcome == "recipe_error":
                 outs = [["error", classify_error(res.exc)]]
             else:
                 outs = [["error", res.outcome]]
-        return {"outs": outs, "draws": [list(d) for d in ctl.below]}
+            return {"outs": outs, "draws": [list(d) for d in ctl.below], "types": types}
+        return {"outs": outs, "draws": [list(d) for d in ctl.below], "types": []}
 
 
 def oracle_rn(rep, case, real):
@@ -302,7 +356,14 @@ def oracle_rn(rep, case, real):
                 return
         return
     top = mx - (mx - mn) % st
+    nonpos_fargs = case["via"] == "fargs" and not case.get("v3") and (mn <= 0 or mx <= 0)
     for i, o in enumerate(outs):
+        if o[0] != "value" and nonpos_fargs and o == ["error", "type_error"]:
+            rep.violation("C11:random-number-nonpositive-formula-argument",
+                          f"random_number with formula-valued arguments min={mn}, max={mx}, step={st} in the default dialect "
+                          "fails with a TypeError: look_for_number leaves `0` and negative numbers strings", case,
+                          "an integer on the lattice", o)
+            return
         if o[0] != "value":
             rep.violation("C11:random-number-fails",
                           f"random_number(min={mn}, max={mx}, step={st}) gave {o} on a non-empty range",
@@ -334,7 +395,10 @@ def model_reqs_rn(case, real):
     draws = real["draws"]
     for i in range(len(case["draws"])):
         k = draws[i][1] if i < len(draws) else 0
-        reqs.append({"m": "c11.random_number", "min": case["min"], "max": case["max"], "step": case["step"], "k": k})
+        req = {"m": "c11.random_number", "min": case["min"], "max": case["max"], "step": case["step"], "k": k}
+        if case["via"] == "fargs" and not case.get("v3"):
+            req["mode"] = "formula_v2"
+        reqs.append(req)
     return reqs
 
 
@@ -359,6 +423,14 @@ def compare_rn(rep, case, real, answers):
             return
         if recipe_failed:
             return
+        # the Python type the output stream receives: an inline v2 formula is re-rendered (`0` and
+        # negative results arrive as strings), every other path delivers a native int
+        types = real.get("types") or []
+        if m[0] == "value" and i < len(types):
+            want = val["rendered_v2"][0] if (case["via"] == "formula" and not case.get("v3")) else "int"
+            if types[i] != want:
+                rep.disagreement("c11.random_number:output-type", case, want, types[i])
+                return
 
 
 # ------------------------------------------------------------------ random_choice
@@ -1122,35 +1194,61 @@ def _draws(rng, forced=True, n=None):
     return d
 
 
+_BIG_BASES = [2**31, 2**53, 2**63, 2**64, 10**20]
+
+
 def gen_rn(rng, forced=True):
     kind = rng.random()
-    big = rng.random() < 0.12
-    base = rng.choice([0, 1, -1, 5, -7, 12, 100, -100, 10**6]) if not big else rng.choice([2**31, -(2**31), 2**53, 2**63, -(2**63), 10**30])
+    big = rng.random() < 0.3
+    if big:
+        # around 2**31, 2**53 +- small, 2**63, 2**64, 10**20 and their negative mirrors
+        base = rng.choice(_BIG_BASES) + rng.choice([-9, -2, -1, 0, 1, 1, 2, 3, 9])
+        if rng.random() < 0.35:
+            base = -base
+    else:
+        base = rng.choice([0, 1, -1, 5, -7, 12, 100, -100, 10**6])
     if kind < 0.12:
         mn = mx = base  # equal
-    elif kind < 0.24:
+    elif kind < 0.22:
         mn, mx = base, base - rng.randint(1, 5)  # empty
     else:
-        width = rng.choice([1, 2, 3, 4, 9, 10, 11, 99, 100, 1000, rng.randint(1, 10**6)]) if not big else rng.choice([1, 7, 2**40, 10**20])
+        if big:
+            width = rng.choice([1, 2, 7, 8, 9, 16, 17, 100, 2**40, 10**20])
+        else:
+            width = rng.choice([1, 2, 3, 4, 9, 10, 11, 99, 100, 1000, rng.randint(1, 10**6)])
         mn, mx = base, base + width
     r = rng.random()
-    if r < 0.35:
+    if r < 0.3:
         st = 1
     elif r < 0.9:
         width = max(mx - mn, 1)
-        st = rng.choice([2, 3, 4, 5, 7, 10, width, width + 1, max(1, width - 1), max(1, width // 2), rng.randint(1, max(2, width))])
+        # odd / even / large steps
+        st = rng.choice([2, 2, 3, 4, 5, 7, 10, width, width + 1, max(1, width - 1), max(1, width // 2),
+                         rng.randint(1, max(2, width)), 2**32 + 1 if big else 6, 2**54 if big else 8])
     elif r < 0.96:
         st = -rng.choice([1, 2, 3, 5])
         if rng.random() < 0.7:
             mn, mx = mx, mn - rng.choice([0, 1, 2])  # a range that is non-empty going down
     else:
         st = 0
-    via = rng.choice(["func", "func", "recipe", "formula"])
+    # the ways a recipe can write it: function call, literal YAML ints, formula-valued arguments, inline call
+    via = rng.choice(["func", "func", "recipe", "fargs", "fargs", "formula", "formula"])
     case = {"kind": "rn", "via": via, "min": mn, "max": mx, "step": st, "draws": _draws(rng, forced)}
     if st == 1 and rng.random() < 0.6:
         case["omit_step"] = True
     if via != "func":
-        case["v3"] = True if via == "formula" else rng.random() < 0.5
+        case["v3"] = rng.random() < 0.4
+    if via in ("fargs", "formula"):
+        case["argform"] = rng.choice(["lit", "pow", "var"] if big else ["lit", "lit", "var"])
+        if via == "fargs" and (mn <= 0 or mx <= 0 or st <= 0) and not case["v3"] and rng.random() < 0.8:
+            case["v3"] = True  # keep the D54 inputs (non-positive formula arguments in v2) a small share
+        if case["argform"] == "var":
+            case["big"] = rng.choice(_BIG_BASES) if big else rng.choice([1, 10, 1000])
+            if mn < 0:
+                case["big"] = -case["big"] if rng.random() < 0.5 else case["big"]
+            case["big_literal"] = rng.random() < 0.5
+            if case["big"] <= 0:
+                case["big_literal"] = True  # a v2 var holding `0`/negative would itself be a string
     return case
 
 
@@ -1340,6 +1438,9 @@ def _histogram(rep, case, real):
         rep.count("rn:step=1" if case["step"] == 1 else "rn:step>1" if case["step"] > 1 else "rn:step<1")
         if abs(case["min"]) >= 2**53 or abs(case["max"]) >= 2**53:
             rep.count("rn:big")
+            rep.count(f"rn:big:{case['via']}:" + ("func" if case["via"] == "func" else "v3" if case.get("v3") else "v2"))
+        if case["via"] in ("fargs", "formula"):
+            rep.count("rn:argform:" + case.get("argform", "lit"))
         if case["min"] == case["max"]:
             rep.count("rn:equal")
     elif k == "choice":
@@ -1400,6 +1501,17 @@ def fixed_cases():
     out.append({"kind": "rn", "via": "recipe", "min": 10, "max": 90, "step": 10, "draws": ["lo", "hi", "mid"]})
     out.append({"kind": "rn", "via": "formula", "min": 5, "max": 10, "step": 1, "omit_step": True, "v3": True, "draws": ["lo", "hi"]})
     out.append({"kind": "rn", "via": "func", "min": -7, "max": -7, "step": 1, "draws": ["lo", "hi"]})
+    # above 2**53 through the default dialect: inline call (result re-rendered) and formula-valued arguments
+    for via in ("formula", "fargs"):
+        for form in ("pow", "var"):
+            out.append({"kind": "rn", "via": via, "min": 2**53 + 1, "max": 2**53 + 9, "step": 2, "argform": form,
+                        "big": 2**53, "big_literal": False, "v3": False, "draws": ["lo", "hi", "mid"]})
+        out.append({"kind": "rn", "via": via, "min": 2**53 + 1, "max": 2**53 + 1, "step": 1, "argform": "pow", "v3": False,
+                    "draws": ["lo", "hi"]})
+        out.append({"kind": "rn", "via": via, "min": 2**64 + 1, "max": 10**20 + 7, "step": 2**32 + 1, "argform": "pow",
+                    "v3": False, "draws": ["lo", "hi", "mid"]})
+    out.append({"kind": "rn", "via": "formula", "min": -(2**53) - 9, "max": -(2**53) - 1, "step": 2, "argform": "pow",
+                "v3": False, "draws": ["lo", "hi", "mid"]})
     out.append({"kind": "rn", "via": "func", "min": 5, "max": 3, "step": 1, "draws": ["lo"]})
     out.append({"kind": "rn", "via": "func", "min": 10, "max": 0, "step": -3, "draws": ["lo", "hi", "mid"]})
     out.append({"kind": "rn", "via": "func", "min": 1, "max": 10, "step": 0, "draws": ["lo"]})
@@ -1432,8 +1544,11 @@ def fixed_cases():
 
 def run(ctx, rep, findings):
     rep.rule = (
-        "random_number triples (negative / equal / empty / huge ranges, steps 1, >1 incl. step > width, negative, 0) through "
-        "function call, YAML function field and ${{formula}}; random_choice over plain lists, `choice:` items and "
+        "random_number triples (negative / equal / empty / huge ranges around 2**31, 2**53 +- small, 2**63, 2**64, 10**20 and "
+        "negative mirrors; steps 1, odd, even, large, > width, negative, 0) written the ways a recipe can write them: function "
+        "call, YAML function field with literal ints, YAML function field with formula-valued arguments (`${{2**53 + 1}}`, "
+        "`${{big + 1}}` with a var), inline `${{random_number(...)}}` whose result is re-rendered - in both dialects; the "
+        "oracle reads the value the output stream receives; random_choice over plain lists, `choice:` items and "
         "`option: weight` mappings (ints, percent strings, zeros, missing probability); `choice:` items whose probability "
         "is a FORMULA of child_index / id / a var, so that the weight vector changes from row to row over 2-5 rows and "
         "1-3 iterations (rows where one option holds all the weight, rows with zero weights; oracle and model per row); date_between over absolute "
